@@ -10,7 +10,9 @@ from pyvc import scene as scn
 from props import api
 
 
-def verify_contract(eng, prover, pid, base, fi, contract, st, args, kwargs=None, assume=()):
+def verify_contract(eng, prover, pid, base, fi, contract, st, args, kwargs=None, assume=(), reach=()):
+    """`reach`: vacuity guards - (label, fn(pre, post, result) -> z3 Bool) pairs; each must be satisfiable together
+    with the path condition of at least one exit path (obligation `reachable:<label>`)."""
     kwargs = kwargs or {}
     b = contract.bind(args, kwargs)
     for f in assume:
@@ -28,8 +30,15 @@ def verify_contract(eng, prover, pid, base, fi, contract, st, args, kwargs=None,
     outs = eng.run_function(st, fi, args, kwargs)
     cases = contract.cases(cx0)
     n = 0
+    reached = {label: False for (label, _) in reach}
     for (x, res) in outs:
         n += 1
+        for (label, fn) in reach:
+            if not reached[label]:
+                y = x.copy()
+                y.assume(fn(pre, x, res))
+                if eng.feasible(y):
+                    reached[label] = True
         kind = "raise" if isinstance(res, Raise) else "normal"
         same = [c for c in cases if c.kind == kind]
         guards = []
@@ -56,6 +65,8 @@ def verify_contract(eng, prover, pid, base, fi, contract, st, args, kwargs=None,
                 prover.goal(f"{pid}/def:{base}/{c.label}/{label}", x, cl, extra=[g], info=ctx)
     if n == 0:
         raise Unsupported("no feasible path through " + base)
+    for label, ok in reached.items():
+        prover.structural(f"{pid}/def:{base}/reachable:{label}", ok, None, {"vacuity-guard": label})
     return n
 
 
